@@ -57,6 +57,11 @@ type scriptConn struct {
 	closed   bool
 	mu       sync.Mutex
 	atEOF    string // "eof" (default): Read returns io.EOF when starved; "timeout": returns a timeout error
+	// pauses[i] > 0: the client waits that long before sending chunk i (real time), so that read deadlines the
+	// server set can expire; rdl/wdl are the deadlines currently in force
+	pauses   []time.Duration
+	paused   int
+	rdl, wdl time.Time
 }
 
 type timeoutErr struct{}
@@ -74,6 +79,14 @@ func (c *scriptConn) Read(p []byte) (int, error) {
 	for c.ci < len(c.chunks) && c.off >= len(c.chunks[c.ci]) {
 		c.ci++
 		c.off = 0
+	}
+	if c.ci < len(c.chunks) && c.off == 0 && c.ci < len(c.pauses) && c.pauses[c.ci] > 0 && c.paused <= c.ci {
+		c.paused = c.ci + 1
+		time.Sleep(c.pauses[c.ci])
+	}
+	if c.ci < len(c.chunks) && !c.rdl.IsZero() && time.Now().After(c.rdl) {
+		c.t.add(connEvent{Kind: "rdl-expired", N: c.ci})
+		return 0, timeoutErr{}
 	}
 	if c.ci >= len(c.chunks) {
 		c.t.add(connEvent{Kind: "starve", N: len(c.t.Out)})
@@ -96,7 +109,11 @@ func (c *scriptConn) Write(p []byte) (int, error) {
 	}
 	c.t.mu.Lock()
 	c.t.Out = append(c.t.Out, p...)
-	c.t.Events = append(c.t.Events, connEvent{Kind: "write", B: append([]byte(nil), p...)})
+	wd := ""
+	if !c.wdl.IsZero() {
+		wd = "wdl" // a write deadline is in force for this write
+	}
+	c.t.Events = append(c.t.Events, connEvent{Kind: "write", S: wd, B: append([]byte(nil), p...)})
 	c.t.mu.Unlock()
 	return len(p), nil
 }
@@ -116,19 +133,37 @@ func (c *scriptConn) Close() error {
 	}
 	return nil
 }
-func (c *scriptConn) LocalAddr() net.Addr  { return &net.TCPAddr{IP: net.IPv4(127, 0, 0, 1), Port: 80} }
-func (c *scriptConn) RemoteAddr() net.Addr { return &net.TCPAddr{IP: net.IPv4(10, 0, 0, 1), Port: 12345} }
-func (c *scriptConn) SetDeadline(time.Time) error      { return nil }
-func (c *scriptConn) SetReadDeadline(time.Time) error  { return nil }
-func (c *scriptConn) SetWriteDeadline(time.Time) error { return nil }
+func (c *scriptConn) LocalAddr() net.Addr { return &net.TCPAddr{IP: net.IPv4(127, 0, 0, 1), Port: 80} }
+func (c *scriptConn) RemoteAddr() net.Addr {
+	return &net.TCPAddr{IP: net.IPv4(10, 0, 0, 1), Port: 12345}
+}
+func (c *scriptConn) SetDeadline(t time.Time) error {
+	c.mu.Lock()
+	c.rdl, c.wdl = t, t
+	c.mu.Unlock()
+	return nil
+}
+func (c *scriptConn) SetReadDeadline(t time.Time) error {
+	c.mu.Lock()
+	c.rdl = t
+	c.mu.Unlock()
+	return nil
+}
+func (c *scriptConn) SetWriteDeadline(t time.Time) error {
+	c.mu.Lock()
+	c.wdl = t
+	c.mu.Unlock()
+	return nil
+}
 
 // connCfg is decoded from one byte string of flags/values: "k=v,k=v".
 type connCfg struct {
 	ReduceMem, DisableNorm, GetOnly, NoPreParse, Stream, NoKeepalive, KeepHijacked bool
-	ReadBuf, MaxBody, MaxReqs                                                       int
-	Continue                                                                        string // "", "accept", "reject" (ContinueHandler), "expect417"/"expect100" (ExpectHandler)
-	AtEOF                                                                           string
-	UseServe                                                                        bool
+	ReadBuf, MaxBody, MaxReqs                                                      int
+	Continue                                                                       string // "", "accept", "reject" (ContinueHandler), "expect417"/"expect100" (ExpectHandler)
+	AtEOF                                                                          string
+	UseServe                                                                       bool
+	HeaderRecv                                                                     bool // hrc=1: Server.HeaderReceived answers from the request's own X-Req-Conf header ("rt=MS;wt=MS;mb=N")
 }
 
 func parseCfg(b []byte) connCfg {
@@ -161,6 +196,8 @@ func parseCfg(b []byte) connCfg {
 			c.Continue = v
 		case "eof":
 			c.AtEOF = v
+		case "hrc":
+			c.HeaderRecv = v == "1"
 		}
 	}
 	return c
@@ -213,6 +250,8 @@ type connServer struct {
 	res  *connResult
 	conn *scriptConn
 	hjWG sync.WaitGroup
+	// pauses for the next run (see scriptConn.pauses)
+	pauses []time.Duration
 	// extra is called at the end of the scripted handler (property-specific observations / mutations)
 	extra func(ctx *fasthttp.RequestCtx, d *dispatchRec)
 }
@@ -220,7 +259,7 @@ type connServer struct {
 func (cs *connServer) run(chunks [][]byte) *connResult {
 	cs.tr = &connTrace{}
 	cs.res = &connResult{Trace: cs.tr}
-	cs.conn = &scriptConn{t: cs.tr, chunks: chunks, atEOF: cs.cfg.AtEOF}
+	cs.conn = &scriptConn{t: cs.tr, chunks: chunks, atEOF: cs.cfg.AtEOF, pauses: cs.pauses}
 	tr, res, conn := cs.tr, cs.res, cs.conn
 	func() {
 		defer func() {
@@ -270,6 +309,24 @@ func newConnServer(cfg connCfg) *connServer {
 		},
 	}
 	cs.s = s
+	if cfg.HeaderRecv {
+		s.HeaderReceived = func(h *fasthttp.RequestHeader) fasthttp.RequestConfig {
+			var rc fasthttp.RequestConfig
+			for _, kv := range strings.Split(string(h.Peek("X-Req-Conf")), ";") {
+				k, v, _ := strings.Cut(kv, "=")
+				n, _ := strconv.Atoi(v)
+				switch k {
+				case "rt":
+					rc.ReadTimeout = time.Duration(n) * time.Millisecond
+				case "wt":
+					rc.WriteTimeout = time.Duration(n) * time.Millisecond
+				case "mb":
+					rc.MaxRequestBodySize = n
+				}
+			}
+			return rc
+		}
+	}
 	switch cfg.Continue {
 	case "accept":
 		s.ContinueHandler = func(*fasthttp.RequestHeader) bool { return true }
@@ -491,4 +548,3 @@ func trunc(b []byte, n int) []byte {
 	}
 	return b
 }
-
